@@ -34,6 +34,21 @@ def export(g, I=None):
             else:
                 out.append(cpair(cnat(idx[id(m)]), clist([cN(I('o:' + objid(o))) for o in objs])))
         return clist(out)
+    wnets = {}
+    for wid, w in getattr(g, "workers", {}).items():
+        net = getattr(w, "net", None)
+        if net is not None:
+            wnets[net.params.get("nets", wid) if hasattr(net, "params") else wid] = net
+
+    def excluded_for(n):
+        """workers whose own restrictions exclude one of the vm variants this node uses"""
+        out = []
+        for wname, net in wnets.items():
+            for o in n.objects:
+                if o.key == "vms" and net.restrs.get(o.suffix) and not g.get_objects_by_restr(net.restrs[o.suffix], subset=[o]):
+                    out.append(wname)
+                    break
+        return out
     terms = []
     for n in nodes:
         p = n.params
@@ -49,7 +64,8 @@ def export(g, I=None):
             f"{clist([cN(I('v:' + v)) for v in p.objects('vms')])} {clist([cN(I('v:' + o.suffix)) for o in n.objects if o.key == 'vms'])} "
             f"{edges(n.setup_nodes)} {edges(n.cleanup_nodes)} "
             f"{clist([cnat(idx[id(b)]) if id(b) in idx else cnat(99999) for b in n.bridged_nodes])} "
-            f"{cN(I('r:' + str(id(n._dropped_setup_nodes))))})")
+            f"{cN(I('r:' + str(id(n._dropped_setup_nodes))))} "
+            f"{clist([cN(I('w:' + w)) for w in ([] if flat else excluded_for(n))])})")
     # rank certificate: longest distance from a parentless node (Kahn); a cycle leaves ranks at 0
     rank = [0] * len(nodes)
     indeg = [len([m for m in n.setup_nodes if id(m) in idx]) for n in nodes]
@@ -68,17 +84,33 @@ def export(g, I=None):
     return clist(terms), clist([cnat(r) for r in rank]), [cN(I('w:' + w)) for w in workers], {"nodes": len(nodes), "workers": workers}
 
 
-def canon(g, with_prefix=False):
+def canon(g, with_prefix=False, skip_sources=False):
     out = {}
     for n in g.nodes:
         if n.is_flat():
             continue
+        if skip_sources and n.cloned_nodes:
+            continue        # a clone source is inert: which of the producers it keeps is arbitrary
         key = n.params["name"]
         out[key] = sorted((p.params["name"], tuple(sorted(o.long_suffix for o in objs)))
                           for p, objs in n.setup_nodes.items() if not p.is_flat() or p.is_shared_root())
         if with_prefix:
             out[key] = (n.prefix, out[key])
     return out
+
+
+def setless(name):
+    return name.split(".", 1)[1] if "." in name else name
+
+
+def canon_sel(gr):
+    """dependencies by names without their first component - the test set through which a node was reached (leaves /
+    all / ...): one test reached both as a selected leaf and as a dependency is two bridged nodes of one worker.
+    Clone sources are skipped. -> {setless name: set of dependency tuples}"""
+    res = {}
+    for name, deps in canon(gr, skip_sources=True).items():
+        res.setdefault(setless(name), set()).add(tuple(sorted((setless(p), objs) for p, objs in deps)))
+    return res
 
 
 def declared_mismatches(g, universe):
@@ -113,18 +145,69 @@ def flat_universe():
     return uni
 
 
+# Tests appended to a scratch copy of the shipped suite (selections prefixed "ext:"): the shipped tests only ever take
+# each object's state from a different parent; these add a parent that provides states of TWO objects to one dependant
+# (a two-object dependency), a chain on top of it, and a three-vm test mixing two-object, one-object and direct setup.
+EXTRA_TESTS = """
+    - xt_pair:
+        vms = vm1 vm2
+        get_images = customize
+        get_state_images = customize
+        set_state_images = pairsetup
+        type = tutorial_step_3
+    - xt_both:
+        vms = vm1 vm2
+        get_images = xt_pair
+        get_state_images = pairsetup
+        type = tutorial_step_3
+    - xt_chain:
+        vms = vm1 vm2
+        get_images = xt_pair
+        get_state_images = pairsetup
+        set_state_images_vm1 = chained
+        type = tutorial_step_3
+    - xt_mixed:
+        vms = vm1 vm2 vm3
+        get_images_vm1 = xt_chain
+        get_state_images_vm1 = chained
+        get_images_vm2 = xt_pair
+        get_state_images_vm2 = pairsetup
+        get_state_vms_vm3 = ready
+        type = tutorial_step_3
+"""
+
+
+def select_suite(work, extended):
+    """-> HOME to use; points i2n.common.suite_path to the shipped suite or to the extended scratch copy"""
+    import shutil
+    from avocado.core.settings import settings
+    from avocado_i2n import params_parser as param
+    if not extended:
+        settings.update_option("i2n.common.suite_path", param._devel_tp_folder)
+        return os.path.join(work, f"home-{os.getpid()}")
+    path = os.path.join(work, f"suite-{os.getpid()}", "tp_folder")
+    if not os.path.exists(path):
+        shutil.copytree(param._devel_tp_folder, path)
+        with open(os.path.join(path, "configs", "groups.cfg"), "a") as f:
+            f.write(EXTRA_TESTS)
+    settings.update_option("i2n.common.suite_path", path)
+    return os.path.join(work, f"home-ext-{os.getpid()}")
+
+
 def parse_job(args):
     """runs in a worker process: eager parse (+ optionally a second parse / a lazy traversal) and export"""
     restr, nets, vmr, mode, seed, work = args
     import logging
     logging.disable(logging.CRITICAL)
-    home = os.path.join(work, f"home-{os.getpid()}")
+    out = {"restr": restr, "nets": nets, "vmr": vmr, "mode": mode}
+    extended = restr.startswith("ext:")
+    restr = restr[4:] if extended else restr
+    home = select_suite(work, extended)
     os.makedirs(home, exist_ok=True)
     os.environ["HOME"] = home
     os.chdir(home)
     from avocado_i2n.cartgraph import TestGraph
     from avocado_i2n import params_parser as param
-    out = {"restr": restr, "nets": nets, "vmr": vmr, "mode": mode}
     try:
         g = TestGraph.parse_object_trees(restriction=restr, object_restrs=vmr, params={"nets": nets})
     except param.EmptyCartesianProduct:
@@ -142,6 +225,21 @@ def parse_job(args):
         out["same"] = canon(g, True) == canon(g2, True)
     if mode == "lazy":
         out.update(lazy_compare(g, restr, nets, vmr, seed))
+    if mode == "subsets":
+        # selection independence: what a test depends on is declared by the configuration, not by what else is selected
+        whole = canon_sel(g)
+        bad = []
+        for part in restr.split(","):
+            try:
+                gp = TestGraph.parse_object_trees(restriction=part, object_restrs=vmr, params={"nets": nets})
+            except param.EmptyCartesianProduct:
+                continue
+            for name, deps in canon_sel(gp).items():
+                if name not in whole:
+                    bad.append((part, name, "node missing when selected together with the other tests"))
+                elif not deps <= whole[name]:
+                    bad.append((part, name, f"dependencies {sorted(deps)} alone but {sorted(whole[name])} together"))
+        out["subset_bad"] = bad[:5]
     return out
 
 
@@ -172,11 +270,49 @@ def lazy_compare(eager, restr, nets, vmr, seed):
         async def main():
             await asyncio.gather(*[g.traverse_object_trees(w, params) for w in sorted(g.workers.values(), key=lambda x: x.params["name"])])
         asyncio.get_event_loop().run_until_complete(main())
-    a, b = canon(eager), canon(g)
-    wrong = [k for k, v in b.items() if a.get(k) != v]
+    a, b = canon_sel(eager), canon_sel(g)
+    wrong = [k for k, v in b.items() if not v <= a.get(k, set())]
     # every selected compatible test expanded by at least one worker
     forms_eager = {n.bridged_form for n in eager.nodes if not n.is_flat()}
     forms_lazy = {n.bridged_form for n in g.nodes if not n.is_flat()}
     gt, rt, ws, info = export(g)
-    return {"lazy_wrong": wrong[:3], "lazy_missing_forms": sorted(forms_eager - forms_lazy)[:3], "lazy_nodes": len(b),
+    return {"lazy_wrong": wrong[:3], "lazy_missing_forms": sorted(forms_eager - forms_lazy)[:3], "lazy_nodes": len(g.nodes),
             "lazy_graph": gt, "lazy_ranks": rt, "lazy_workers_expanded": sorted({n.params.get("nets") for n in g.nodes if not n.is_flat()})}
+
+
+def update_job(args):
+    """runs in a worker process: the graph the update tool assembles (worker graphs parsed one by one, then bridged
+    in all ordered pairs), captured at the point where the tool hands it to the runner"""
+    vms, nets, fr, to, seed, work = args
+    import logging
+    import random
+    from unittest import mock
+    logging.disable(logging.CRITICAL)
+    home = os.path.join(work, f"home-{os.getpid()}")
+    os.makedirs(home, exist_ok=True)
+    os.environ["HOME"] = home
+    os.chdir(home)
+    from avocado_i2n import intertest_setup
+    from avocado_i2n.plugins.runner import TestRunner
+    from harness import toolseam
+    vp = {}
+    for vm in vms:
+        vp[f"from_state_{vm}"] = fr
+        vp[f"to_state_{vm}"] = to
+    config = toolseam.base_config({vm: VMR[vm] for vm in vms}, nets, vms_params=vp)
+    seen = []
+    out = {"restr": f"update {' '.join(vms)} {fr}->{to}", "nets": nets, "vmr": {vm: VMR[vm] for vm in vms}, "mode": "update",
+           "update": [list(vms), fr, to]}
+    with toolseam.Recorder(random.Random(seed)):
+        with mock.patch.object(TestRunner, "run_workers", lambda self, graph, params: seen.append(graph)):
+            try:
+                intertest_setup.update(config, tag="1r")
+            except Exception as e:
+                out["error"] = repr(e)[:300]
+                return out
+    if not seen:
+        out["error"] = "the tool never handed a graph to the runner"
+        return out
+    gt, rt, ws, info = export(seen[0])
+    out.update(graph=gt, ranks=rt, workers=ws, info=info)
+    return out
